@@ -1,4 +1,5 @@
 import UtlsVerif.Forge
+import UtlsVerif.ForgePoll
 import UtlsVerif.Gen.Suites
 /-!
 # C27 — forged connections from shared secrets interoperate
@@ -22,6 +23,9 @@ Instances over the regenerated tables (the row predicate is discharged by `decid
 
 * `tables_wf`, `forge_wiring`, `forge_exchange`, `forge_seq`, `forge_unknown_nil`,
   `forge_nil_iff`, `weak_adds_weak_cbc`, `weak_extends_base`, `forge_wiring_survives_weak`.
+
+Record reassembly under deadline polling (follow-up to seeded change C27-3): `poll_transparent`,
+`poll_independent` over `ForgePoll`.
 
 `d16_swapped_flags_not_wired` keeps the repaired defect visible: the pre-repair transcription
 (client side built with the flags swapped) is *not* wired for any row whose constructor takes a
@@ -289,6 +293,59 @@ theorem forge_wiring_survives_weak (id v : Nat) (r : Row) (hl : lookup Gen.Suite
 /-- no id occurs twice in either table, so "first row with this id" is "the row with this id". -/
 theorem table_ids_nodup : (Gen.Suites.base.map (·.id)).Nodup ∧ (Gen.Suites.weak.map (·.id)).Nodup := by
   decide
+
+/-! ## a reader that polls with read deadlines (seeded change C27-3) -/
+
+private theorem poll_inv (evs : List ForgePoll.Ev) :
+    ∀ (s : ForgePoll.Rd) (pre : Wire.Bytes), (s.out, s.raw) = ForgePoll.drain pre →
+      ((evs.foldl ForgePoll.Rd.step s).out, (evs.foldl ForgePoll.Rd.step s).raw) =
+        ForgePoll.drain (pre ++ ForgePoll.bytesOf evs) := by
+  induction evs with
+  | nil => intro s pre h; simpa [ForgePoll.bytesOf] using h
+  | cons e es ih =>
+    intro s pre h
+    cases e with
+    | timeout => simpa [ForgePoll.bytesOf, ForgePoll.Rd.step] using ih s pre h
+    | chunk bs =>
+      have h1 : (ForgePoll.drain pre).1 = s.out := by rw [← h]
+      have h2 : (ForgePoll.drain pre).2 = s.raw := by rw [← h]
+      have hs : ((s.step (.chunk bs)).out, (s.step (.chunk bs)).raw) = ForgePoll.drain (pre ++ bs) := by
+        rw [ForgePoll.drain_append pre bs, h1, h2]; rfl
+      have := ih (s.step (.chunk bs)) (pre ++ bs) hs
+      simpa [ForgePoll.bytesOf, List.append_assoc] using this
+
+/-- **Polling is transparent.** Whatever pieces the transport delivers the byte stream in, and
+wherever read deadlines expire in between (between records, inside a header, inside a body), the
+records the reader has delivered and the partial record it still buffers are exactly those of the
+byte stream received so far: a timeout loses nothing and kills nothing. (The code: a timeout is a
+temporary `net.Error`, returned but not stored in `c.in.err`, `c.rawInput` keeps the partial
+record.) -/
+theorem poll_transparent (evs : List ForgePoll.Ev) :
+    ((evs.foldl ForgePoll.Rd.step {}).out, (evs.foldl ForgePoll.Rd.step {}).raw) =
+      ForgePoll.drain (ForgePoll.bytesOf evs) := by
+  have h0 : ((({} : ForgePoll.Rd)).out, (({} : ForgePoll.Rd)).raw) = ForgePoll.drain [] := by
+    rw [ForgePoll.drain_none (by decide)]
+  simpa using poll_inv evs {} [] h0
+
+/-- hence two deliveries of the same bytes — differently cut, with different timeouts — give the
+reader the same records. -/
+theorem poll_independent (e1 e2 : List ForgePoll.Ev) (h : ForgePoll.bytesOf e1 = ForgePoll.bytesOf e2) :
+    (e1.foldl ForgePoll.Rd.step {}).out = (e2.foldl ForgePoll.Rd.step {}).out := by
+  have a := congrArg Prod.fst (poll_transparent e1)
+  have b := congrArg Prod.fst (poll_transparent e2)
+  simp only at a b
+  rw [a, b, h]
+
+-- a 2-byte record arriving in three pieces with deadlines expiring inside the header and inside the body
+example : ([ForgePoll.Ev.chunk [23, 3, 3], .timeout, .chunk [0, 2, 9], .timeout, .timeout, .chunk [9, 23]].foldl
+    ForgePoll.Rd.step {}).out = [[23, 3, 3, 0, 2, 9, 9]] := by
+  have h := congrArg Prod.fst (poll_transparent
+    [ForgePoll.Ev.chunk [23, 3, 3], .timeout, .chunk [0, 2, 9], .timeout, .timeout, .chunk [9, 23]])
+  simp only at h
+  rw [h]
+  have e : ForgePoll.bytesOf [ForgePoll.Ev.chunk [23, 3, 3], .timeout, .chunk [0, 2, 9], .timeout, .timeout, .chunk [9, 23]]
+      = [23, 3, 3, 0, 2, 9, 9, 23] := by decide
+  rw [e, ForgePoll.drain_some (r := [23, 3, 3, 0, 2, 9, 9]) (rest := [23]) (by decide), ForgePoll.drain_none (by decide)]
 
 /-! ## D16 (repaired): the pre-repair wiring is refuted by the same predicate -/
 
